@@ -48,6 +48,16 @@ theorem aux_verdict (s : St) (v : Ver) (h : Att s) (hb : (verifyVerdict s v).2 =
     obtain ⟨c, hc⟩ := Option.isSome_iff_exists.mp h.cur
     simp only [verifyVerdict, hc]
     exact ⟨Or.inl (by simp [Conn.live]), fun _ => Or.inr (Or.inl (by simp [Conn.live]))⟩
+  | okLost =>
+    simp only [verifyVerdict]
+    split
+    · refine ⟨Or.inr (finish_waiters _ _), fun _ => ?_⟩
+      right; right; right; right
+      obtain ⟨c, hc⟩ := Option.isSome_iff_exists.mp h.cur
+      simp [finish, resolveWaiters, St.isConnected, hc, h.ncf]
+    · split
+      · exact aux_backoff _
+      · exact aux_backoff _
   | wrongId =>
     simp only [verifyVerdict] at hb ⊢
     split
